@@ -320,6 +320,31 @@ def pending_flush_scenarios(sid0, seed, rnd):
     return out
 
 
+def boundary_scenarios(sid0, seed):
+    """An overwrite that starts inside a STORED segment and ends exactly at that segment's end, then a
+    positioned read that begins at the boundary through another handle (a zero-length segment left
+    behind there makes such a read report EOF early while sequential reads skip it).  Stored segments
+    of exactly `bs` bytes come from writing 3*bs bytes and saving before the overwrite."""
+    o = lambda h, p, acc="rw", cr=True: {"op": "open", "h": h, "p": p, "acc": acc, "cr": cr, "ex": False,
+                                         "tr": False, "ap": False}
+    out = []
+    i = 0
+    for bs in (2, 3, 4):
+        data = "abcdefghijkl"[:3 * bs]
+        for k in (1, 2):                 # boundary at k*bs
+            for j in range(1, bs):       # overwrite the last j bytes of segment k
+                for fl in ("marshal", "sync"):
+                    ops = [o(1, ["a"]), {"op": "write", "h": 1, "d": data}, {"op": "flushnow", "d": fl},
+                           {"op": "seek", "h": 1, "off": k * bs - j, "wh": 0}, {"op": "write", "h": 1, "d": "XYZ"[:j]},
+                           o(2, ["a"], "r", False), {"op": "seek", "h": 2, "off": k * bs, "wh": 0},
+                           {"op": "read", "h": 2, "n": bs}, {"op": "seek", "h": 2, "off": k * bs - j, "wh": 0},
+                           {"op": "read", "h": 2, "n": 2 * bs}, {"op": "stat", "p": ["a"]}]
+                    out.append({"id": sid0 + i, "mode": "steps", "bs": bs, "flush": "none", "rseed": seed + i,
+                                "init": "empty", "gen": "boundary", "ops": ops})
+                    i += 1
+    return out
+
+
 def build_scenarios(ctx, paths, rnd):
     scns = []
     sid = 0
@@ -351,6 +376,7 @@ def build_scenarios(ctx, paths, rnd):
                      "gen": "smoke"})
     scns += kf_scenarios(sid + 1, ctx.seed)
     scns += pattern_scenarios(sid + 100, ctx.seed, rnd)
+    scns += boundary_scenarios(sid + 400, ctx.seed)
     return scns
 
 
